@@ -13,6 +13,7 @@
 import BlocV.Proofs.Lemmas.OpsCases
 import BlocV.Proofs.Lemmas.BuiltinCases
 import BlocV.Proofs.Lemmas.NoHazardProgram
+import BlocV.Proofs.Lemmas.NoHazardElab
 
 namespace BlocV.C01
 open BlocV
@@ -266,21 +267,21 @@ is FALSE of the model: `Val.str` is an unbounded list, 63 doublings `s = s + s` 
 holds 2^63 bytes: the doublings end in `std::bad_alloc` / `length_error` long before), and the witness cannot be evaluated
 (`decide +kernel` on a list of 2^63 elements) nor run. The invariant that would exclude it ("every string is shorter than 2^63") is
 not preserved by the model's `+`, `replace`, `concat`, `b64enc`, which is why it is not part of `WfSt`. -/
-theorem exec_no_hazard_partial (funcs : List Func) (hF : NHI.FuncsOk funcs) (L : List String) (depth fuel : Nat) (prog : List Stmt) (s : St)
-    (hl : lockL L prog = true) (hv : NHI.litL prog = true) (hs : NHI.WfSt s) (hsrc : NHI.SrcIn L s) :
+theorem exec_no_hazard_partial (funcs : List Func) (hF : NHI.FuncsOk true funcs) (L : List String) (depth fuel : Nat) (prog : List Stmt) (s : St)
+    (hl : lockL L prog = true) (hv : NHI.litL true prog = true) (hs : NHI.WfSt s) (hsrc : NHI.SrcIn L s) :
     (∀ h, (execList funcs depth fuel prog s).1 = .haz h → h = .signedOverflow) ∧
     NHI.WfSt (execList funcs depth fuel prog s).2 := by
-  have h := (NHI.nh_all (bad := notOverflow) rfl funcs hF fuel).2.2.2.2.1 L depth prog hl hv s ⟨hs, hsrc⟩
+  have h := (NHI.nh_all (bad := notOverflow) (sub := true) (.inl rfl) funcs hF fuel).2.2.2.2.1 L depth prog hl hv s ⟨hs, hsrc⟩
   refine ⟨fun x e => ?_, h.2.1.1⟩
   have := h.1 x e
   simpa [notOverflow] using this
 
 /-- the same for one expression: its value, when there is one, is deep-well-formed -/
-theorem eval_no_hazard_partial (funcs : List Func) (hF : NHI.FuncsOk funcs) (L : List String) (depth fuel : Nat) (e : Expr) (s : St)
-    (hl : lockE L e = true) (hv : NHI.litE e = true) (hs : NHI.WfSt s) (hsrc : NHI.SrcIn L s) :
+theorem eval_no_hazard_partial (funcs : List Func) (hF : NHI.FuncsOk true funcs) (L : List String) (depth fuel : Nat) (e : Expr) (s : St)
+    (hl : lockE L e = true) (hv : NHI.litE true e = true) (hs : NHI.WfSt s) (hsrc : NHI.SrcIn L s) :
     (∀ h, (eval funcs depth fuel e s).1 = .haz h → h = .signedOverflow) ∧
     NHI.WfSt (eval funcs depth fuel e s).2 ∧ ∀ v, (eval funcs depth fuel e s).1 = .ok v → NHI.okVal v = true := by
-  have h := (NHI.nh_all (bad := notOverflow) rfl funcs hF fuel).1 L depth e hl hv s ⟨hs, hsrc⟩
+  have h := (NHI.nh_all (bad := notOverflow) (sub := true) (.inl rfl) funcs hF fuel).1 L depth e hl hv s ⟨hs, hsrc⟩
   refine ⟨fun x e => ?_, h.2.1.1, h.2.2⟩
   have := h.1 x e
   simpa [notOverflow] using this
@@ -289,11 +290,11 @@ theorem eval_no_hazard_partial (funcs : List Func) (hF : NHI.FuncsOk funcs) (L :
 example : lockL [] [.letS "t" (.call "tab" [.lit (.int 2), .lit (.int 7)]),
     .forallS "e" (.var "t") .auto [.letS "e" (.bin .add (.var "e") (.lit (.int 1)))],
     .doS (.member .concat (.var "t") [.lit (.int 9)])] = true := by decide
-example : NHI.litL [.letS "t" (.call "tab" [.lit (.int 2), .lit (.int 7)]),
+example : NHI.litL true [.letS "t" (.call "tab" [.lit (.int 2), .lit (.int 7)]),
     .forallS "e" (.var "t") .auto [.letS "e" (.bin .add (.var "e") (.lit (.int 1)))],
     .doS (.member .concat (.var "t") [.lit (.int 9)])] = true := by
   simp [NHI.litL, NHI.litS, NHI.litE, NHI.litEs]
-example : NHI.FuncsOk [] ∧ NHI.SrcIn [] {} := ⟨fun _ h => (by cases h), fun _ h => (by cases h)⟩
+example : NHI.FuncsOk true [] ∧ NHI.SrcIn [] {} := ⟨fun _ h => (by cases h), fun _ h => (by cases h)⟩
 /-- The lock hypothesis cannot be dropped: a body that deletes from the table it traverses — which `Parser::parse` refuses with
 CONST_VIOLATION (`lockProgram = false`) — leaves the iterator pointing past the end, and reading it is the model's hazard `oob`.
 Literals are fine and the state is the initial one, so `lockProgram` is the only hypothesis of `run_no_hazard_partial` that fails.
@@ -302,7 +303,7 @@ theorem lock_hypothesis_needed :
     let prog : List Stmt := [.letS "t" (.call "tab" [.lit (.int 2), .lit (.int 7)]),
       .forallS "e" (.var "t") .auto [.doS (.member .delete (.var "t") [.lit (.int 0)]),
         .doS (.member .delete (.var "t") [.lit (.int 0)]), .doS (.var "e")]]
-    lockProgram prog = false ∧ NHI.litProgram prog = true ∧
+    lockProgram prog = false ∧ NHI.litProgram true prog = true ∧
     (match (runProgram 20 prog).outcome with | .haz .oob => true | _ => false) = true := by decide +kernel
 
 /-- **`run_no_hazard_partial`** — the same for `runProgram` = `Parser::parse` + `Executable::run` of a WHOLE program: function
@@ -310,46 +311,87 @@ table collected from the program, symbols registered as typed nulls, top-level s
 left are that the parser accepted the program under the lock discipline (`lockProgram`), that its literals are well-formed
 (`litProgram`) and that the state the run starts from is well-formed with no `forall` running. -/
 theorem run_no_hazard_partial (fuel : Nat) (prog : List Stmt) (init : St)
-    (hl : lockProgram prog = true) (hv : NHI.litProgram prog = true) (hs : NHI.WfSt init) (hi : init.iters = []) :
+    (hl : lockProgram prog = true) (hv : NHI.litProgram true prog = true) (hs : NHI.WfSt init) (hi : init.iters = []) :
     (∀ h, (runProgram fuel prog init).outcome = .haz h → h = .signedOverflow) ∧ NHI.WfSt (runProgram fuel prog init).st := by
-  have key : ∀ s0 : St, NHI.Inv [] s0 →
-      (∀ h, (match execList (collectFuncs prog) 0 fuel prog s0 with
-          | (.ok _, s) => ({ outcome := .ok s.returned, st := s } : RunResult)
-          | (.err c a, s) => { outcome := .err c a, st := s }
-          | (.haz h, s) => { outcome := .haz h, st := s }
-          | (.unmodelled, s) => { outcome := .unmodelled, st := s }).outcome = .haz h → h = .signedOverflow) ∧
-      NHI.WfSt (match execList (collectFuncs prog) 0 fuel prog s0 with
-          | (.ok _, s) => ({ outcome := .ok s.returned, st := s } : RunResult)
-          | (.err c a, s) => { outcome := .err c a, st := s }
-          | (.haz h, s) => { outcome := .haz h, st := s }
-          | (.unmodelled, s) => { outcome := .unmodelled, st := s }).st := by
-    intro s0 hs0
-    have h := (NHI.nh_all (bad := notOverflow) rfl (collectFuncs prog) (NHI.funcsOk_collect prog hl hv) fuel).2.2.2.2.1 [] 0 prog
-      (NHI.lockL_of_program prog hl) (NHI.litL_of_program prog hv) s0 hs0
-    revert h
-    generalize execList (collectFuncs prog) 0 fuel prog s0 = r
-    intro h
-    obtain ⟨r1, s'⟩ := r
-    cases r1 with
-    | haz x =>
-      refine ⟨fun y e => ?_, h.2.1.1⟩
-      simp only [Res.haz.injEq] at e
-      subst e
-      have := h.1 x rfl
-      simpa [notOverflow] using this
-    | ok _ => exact ⟨fun y e => (by cases e), h.2.1.1⟩
-    | err _ _ => exact ⟨fun y e => (by cases e), h.2.1.1⟩
-    | unmodelled => exact ⟨fun y e => (by cases e), h.2.1.1⟩
-  unfold runProgram
-  dsimp only
-  refine key _ ⟨⟨?_, hs.ret, hs.priv, ?_, hs.nodup⟩, ?_⟩
-  · exact NHI.okVal_declVars _ _ hs.vars
-  · intro b hb; rw [hi] at hb; cases hb
-  · intro b hb; rw [hi] at hb; cases hb
+  have h := NHI.run_nb (bad := notOverflow) (sub := true) (.inl rfl) fuel prog init hl hv hs hi
+  exact ⟨fun x e => by simpa [notOverflow] using h.1 x e, h.2⟩
 
 example : lockProgram [.funcS "f" [("x", Ty.int)] Ty.int [.returnS (some (.bin .mul (.var "x") (.lit (.int 2))))] [],
     .printS [.fcall "f" [.lit (.int 21)]]] = true ∧
-    NHI.litProgram [.funcS "f" [("x", Ty.int)] Ty.int [.returnS (some (.bin .mul (.var "x") (.lit (.int 2))))] [],
+    NHI.litProgram true [.funcS "f" [("x", Ty.int)] Ty.int [.returnS (some (.bin .mul (.var "x") (.lit (.int 2))))] [],
     .printS [.fcall "f" [.lit (.int 21)]]] = true := ⟨by decide, by simp [NHI.litProgram, NHI.litL, NHI.litS, NHI.litE, NHI.litEs, NHI.litCatches]⟩
+
+
+/-! ### full strength for programs that never call `substr` / `subraw`; whole source texts
+
+`NHI.litL false prog` (`NHI.litProgram false prog`) is `NHI.litL true prog` plus: no node `call "substr" …` / `call "subraw" …` anywhere
+in the program, function bodies included. For such programs the `signedOverflow` escape is gone. -/
+
+/-- **`exec_no_hazard`** — the full statement, for every statement list that never calls `substr` / `subraw`: no hazard at all. -/
+theorem exec_no_hazard (funcs : List Func) (hF : NHI.FuncsOk false funcs) (L : List String) (depth fuel : Nat) (prog : List Stmt) (s : St)
+    (hl : lockL L prog = true) (hv : NHI.litL false prog = true) (hs : NHI.WfSt s) (hsrc : NHI.SrcIn L s) :
+    (execList funcs depth fuel prog s).1.isHazard = false ∧ NHI.WfSt (execList funcs depth fuel prog s).2 := by
+  have h := (NHI.nh_all (bad := fun _ => true) (sub := false) (.inr rfl) funcs hF fuel).2.2.2.2.1 L depth prog hl hv s ⟨hs, hsrc⟩
+  exact ⟨NHI.nb_all h.1, h.2.1.1⟩
+
+/-- **`run_no_hazard`** — the same for `runProgram` of a whole program. -/
+theorem run_no_hazard (fuel : Nat) (prog : List Stmt) (init : St)
+    (hl : lockProgram prog = true) (hv : NHI.litProgram false prog = true) (hs : NHI.WfSt init) (hi : init.iters = []) :
+    (runProgram fuel prog init).outcome.isHazard = false ∧ NHI.WfSt (runProgram fuel prog init).st := by
+  have h := NHI.run_nb (bad := fun _ => true) (sub := false) (.inr rfl) fuel prog init hl hv hs hi
+  refine ⟨?_, h.2⟩
+  cases ho : (runProgram fuel prog init).outcome with
+  | haz x => exact absurd (h.1 x ho) (by simp)
+  | _ => rfl
+
+example : lockL [] [.letS "t" (.call "tab" [.lit (.int 2), .lit (.int 7)]), .doS (.call "strlen" [.lit (.str [97])])] = true ∧
+    NHI.litL false [.letS "t" (.call "tab" [.lit (.int 2), .lit (.int 7)]), .doS (.call "strlen" [.lit (.str [97])])] = true ∧
+    NHI.litL false [.doS (.call "substr" [.lit (.str [97]), .lit (.int 0)])] = false ∧
+    NHI.litL true [.doS (.call "substr" [.lit (.str [97]), .lit (.int 0)])] = true := by
+  refine ⟨by decide, ?_, ?_, ?_⟩ <;> simp [NHI.litL, NHI.litS, NHI.litE, NHI.litEs]
+
+/-- **`elab_wf`** — the elaborator only produces programs whose literals satisfy the invariant: every `Expr.lit` it emits is an
+integer, a decimal, a string, `true` / `false`, `null` or the typed null of `int()` `num()` `bool()` `str()` `raw()`. For EVERY parse
+tree (`Parse.PStmt` list) it accepts. -/
+theorem elab_wf (p : List Parse.PStmt) (prog : List Stmt) (h : Elab.elabProgram p = .ok prog) : NHI.litProgram true prog = true :=
+  NHI.litProgram_of_litL prog (NHI.elabBlock_lit p prog h)
+
+/-- **`text_no_hazard_partial`** — never a crash, for whole SOURCE TEXTS. The theorem is about `Stepwise.runText fuel src`
+(Model/Stepwise.lean; what the driver's `src` command answers): the bytes through the reader + scanner + parser models
+(`Parse.parseText`), the elaborator (`Elab.elabProgram`), the compile pass of `Stepwise.runBatch` (expression acceptance, `$` /
+iterator constraints, FOR bounds), the parse-time lock (`lockProgram`), then `runProgram` from the initial state. For EVERY byte
+list and every fuel the answer is one of
+  * `rejected code` — a parse error of the scanner / parser (or a pseudo code of Model/Parse.lean: out of fuel, import / include,
+    foreign exception in the parser — the last one is the model's way of saying "`std::stoul` threw": it is an outcome here, not a
+    hazard, and no current text reaches it since 7b31e38),
+  * `unsupported what` — the text parses but holds a construct the interpreter model has no node for (`matches`, `set@`, `trace`,
+    `put`, typed declarations, unknown built-ins / members / constants / declared types): the explicit fourth outcome,
+  * `ran r` with `r.outcome = perr code` (refused by the compile pass or the lock) or `r.outcome = ran o` with `o` a value, a runtime
+    error (out of fuel included), `unmodelled`, or — the only hazard left — `haz signedOverflow` (see `exec_no_hazard_partial`).
+No hypothesis: well-formedness of the literals is `elab_wf`, the lock is tested by `runBatch`, the initial state is `wf_init`. -/
+theorem text_no_hazard_partial (fuel : Nat) (src : Bytes) (r : Stepwise.Result) (hr : Stepwise.runText fuel src = .ran r)
+    (h : Hazard) (hh : r.outcome = .ran (.haz h)) : h = .signedOverflow := by
+  have := NHI.runText_nb (bad := notOverflow) (sub := true) (.inl rfl) fuel src (fun prog hp => NHI.frontEnd_lit src prog hp) r hr h hh
+  simpa [notOverflow] using this
+
+/-- **`text_no_hazard`** — the full statement for texts whose elaborated program never calls `substr` / `subraw`: no hazard. -/
+theorem text_no_hazard (fuel : Nat) (src : Bytes)
+    (hsub : ∀ prog, Elab.frontEnd src = .ok (.ok prog) → NHI.litProgram false prog = true)
+    (r : Stepwise.Result) (hr : Stepwise.runText fuel src = .ran r) (h : Hazard) : r.outcome ≠ .ran (.haz h) := by
+  intro hh
+  have := NHI.runText_nb (bad := fun _ => true) (sub := false) (.inr rfl) fuel src hsub r hr h hh
+  simp at this
+
+/-- The three kinds of answer of `runText` that reach the compile pass are inhabited (tests by kernel evaluation of the whole
+pipeline on the bytes of three texts): a text with a `forall` writing through its iterator runs to completion; the text that deletes
+from the table it traverses is REFUSED with CONST_VIOLATION (before the repair of the front end it was run and ended in the hazard
+`oob`: the witness of `lock_hypothesis_needed`); a text calling `substr` is outside the hypothesis of `text_no_hazard` and inside that
+of `text_no_hazard_partial`. -/
+theorem text_examples :
+    (match Stepwise.runText 200 [116, 32, 61, 32, 116, 97, 98, 40, 50, 44, 32, 55, 41, 59, 10, 102, 111, 114, 97, 108, 108, 32, 101, 32, 105, 110, 32, 116, 32, 108, 111, 111, 112, 10, 32, 101, 32, 61, 32, 101, 32, 43, 32, 49, 59, 10, 101, 110, 100, 32, 108, 111, 111, 112, 59, 10, 112, 114, 105, 110, 116, 32, 116, 46, 97, 116, 40, 48, 41, 59, 10] with | .ran r => r.outcome.ranOk | _ => false) = true ∧
+    (match Stepwise.runText 200 [116, 32, 61, 32, 116, 97, 98, 40, 50, 44, 32, 55, 41, 59, 10, 102, 111, 114, 97, 108, 108, 32, 101, 32, 105, 110, 32, 116, 32, 108, 111, 111, 112, 10, 32, 116, 46, 100, 101, 108, 101, 116, 101, 40, 48, 41, 59, 10, 32, 112, 114, 105, 110, 116, 32, 101, 59, 10, 101, 110, 100, 32, 108, 111, 111, 112, 59, 10] with | .ran r => r.outcome.perrCode | _ => none) = some Gen.EXC_PARSE_CONST_VIOLATION_S ∧
+    (match Elab.frontEnd [112, 114, 105, 110, 116, 32, 115, 117, 98, 115, 116, 114, 40, 34, 104, 101, 108, 108, 111, 34, 44, 32, 49, 44, 32, 51, 41, 59, 10] with | .ok (.ok prog) => (NHI.litProgram false prog, NHI.litProgram true prog) | _ => (true, false)) = (false, true) ∧
+    (match Elab.frontEnd [116, 32, 61, 32, 116, 97, 98, 40, 50, 44, 32, 55, 41, 59, 10, 102, 111, 114, 97, 108, 108, 32, 101, 32, 105, 110, 32, 116, 32, 108, 111, 111, 112, 10, 32, 101, 32, 61, 32, 101, 32, 43, 32, 49, 59, 10, 101, 110, 100, 32, 108, 111, 111, 112, 59, 10, 112, 114, 105, 110, 116, 32, 116, 46, 97, 116, 40, 48, 41, 59, 10] with | .ok (.ok prog) => NHI.litProgram false prog | _ => false) = true := by
+  decide +kernel
 
 end BlocV.C01
